@@ -26,6 +26,7 @@ OBLIGATION_ERRORS = (
     "unable to prove post-condition of closure",
     "decreases not satisfied",
     "index out of bounds",
+    "precondition not met: index in bounds",
     "possible bit shift underflow/overflow",
     "loop invariant not satisfied",
     "unable to prove assertion",
@@ -38,7 +39,7 @@ OBLIGATION_ERRORS = (
 SIDE_KINDS = {
     "overflow": ("possible arithmetic underflow/overflow", "possible bit shift underflow/overflow"),
     "division": ("possible division by zero",),
-    "index": ("index out of bounds",),
+    "index": ("index out of bounds", "precondition not met: index in bounds"),
     "termination": ("could not prove termination", "decreases not satisfied"),
 }
 UNDECIDED_MARKERS = ("Resource limit (rlimit) exceeded", "rlimit exceeded", "timed out", "out of memory")
